@@ -166,11 +166,11 @@ func genCfgVal(r *Rng, k cfgKey, short bool) cfgVal {
 		case "WeatherRootFolder":
 			s = pickS(r, []string{"./weather/", "./wx", "/data/weather", "weather2", ""})
 		case "WeatherFolder":
-			s = pickS(r, []string{"hist", "scenA", "Weather", "x1", ""})
+			s = pickS(r, []string{"hist", "scenA", "Weather", "x1", "", "scen=2"})
 		case "ResultFileExt":
 			s = pickS(r, []string{"csv", "RES", "txt", "out", "dat", ""})
 		default:
-			s = pickS(r, []string{"abc", "soil2", "txt", "csv", "yml", "poly_b", "x-1", "Q", "--------", "file.name"})
+			s = pickS(r, []string{"abc", "soil2", "txt", "csv", "yml", "poly_b", "x-1", "Q", "--------", "file.name", "scen=2", "a=b=c"}) // a value may contain '=' itself
 		}
 		q := "\"" + s + "\""
 		return cfgVal{q, s, s}
@@ -249,7 +249,7 @@ func genCfgCase(r *Rng, keys []cfgKey) *cfgCase {
 	}
 	// tokens that are not key=value at all (no '=' or more than one) are not arguments: they are skipped wherever they stand
 	for i, n := 0, r.Range(0, 2); i < n; i++ {
-		c.Unknown = append(c.Unknown, pickS(r, []string{"verbose", "-x", "note=a=b", "Latitude", "=", "ETpot=3=4"}))
+		c.Unknown = append(c.Unknown, pickS(r, []string{"verbose", "-x", "note=a=b", "Latitude", "=", "x=y=z"}))
 	}
 	for i, n := 0, r.Range(0, 3); i < n; i++ {
 		c.Unknown = append(c.Unknown, pickS(r, []string{"NoSuchKey", "dateformat", "ETPOT", "Latitude2", "endDate", "Config", "x"})+strconv.Itoa(i)+"="+pickS(r, []string{"1", "abc", "3.5", "on"}))
